@@ -627,19 +627,40 @@ func runBFS(t *testing.T, env *engine.Env, res *engine.Result, delta bool, depth
 	} else {
 		mode += "-joint"
 	}
-	seen := map[string]bool{}
+	// visited set: 128-bit digests of canonical states; frontier: histories as indexes into an event
+	// table (millions of states at the thorough depths would not fit otherwise)
+	seen := map[[16]byte]struct{}{}
 	w0 := newWorld(delta, types...)
-	seen[w0.canon()] = true
-	frontier := [][]event{nil}
+	seen[engine.Key128(w0.canon())] = struct{}{}
+	var evTab []event
+	evIdx := map[string]uint16{}
+	intern := func(e event) uint16 {
+		k := e.String()
+		if i, ok := evIdx[k]; ok {
+			return i
+		}
+		evTab = append(evTab, e)
+		evIdx[k] = uint16(len(evTab) - 1)
+		return uint16(len(evTab) - 1)
+	}
+	expand := func(h []uint16) []event {
+		out := make([]event, len(h))
+		for i, x := range h {
+			out[i] = evTab[x]
+		}
+		return out
+	}
+	frontier := [][]uint16{nil}
 	res.States++
 	closed := false
 	for d := 0; d < depth; d++ {
-		var next [][]event
-		for _, hist := range frontier {
+		var next [][]uint16
+		for _, chist := range frontier {
 			if env.Expired() {
 				res.Cap("deadline (" + mode + ")")
 				return
 			}
+			hist := expand(chist)
 			w, _ := replay(delta, hist)
 			for _, e := range w.enabled(env.Thorough()) {
 				h2 := append(append([]event(nil), hist...), e)
@@ -653,10 +674,11 @@ func runBFS(t *testing.T, env *engine.Env, res *engine.Result, delta bool, depth
 					continue
 				}
 				c := w2.canon()
-				if seen[c] {
+				ck := engine.Key128(c)
+				if _, ok := seen[ck]; ok {
 					continue
 				}
-				seen[c] = true
+				seen[ck] = struct{}{}
 				res.States++
 				if w2.conformant {
 					res.NontrivialCase(mode + c)
@@ -665,7 +687,7 @@ func runBFS(t *testing.T, env *engine.Env, res *engine.Result, delta bool, depth
 				if v := ackLoop(delta, h2); v != nil {
 					res.Violate(v.key, v.desc, map[string]any{"delta": delta, "events": h2, "types": types})
 				}
-				next = append(next, h2)
+				next = append(next, append(append([]uint16(nil), chist...), intern(e)))
 				if res.States%400 == 3 {
 					res.Sample(map[string]any{"mode": mode, "history": fmt.Sprint(h2), "state": c})
 				}
